@@ -85,7 +85,11 @@ func BuildSPMetadata(c *SPCfg) string {
 	}
 	var sb strings.Builder
 	sb.WriteString(`<?xml version="1.0" encoding="UTF-8"?>` + "\n")
-	sb.WriteString("<" + mdp + "EntityDescriptor" + rootDecl + ` entityID="` + xa(c.Entity) + `">` + "\n")
+	vu := ""
+	if c.ValidUntil != "" {
+		vu = ` validUntil="` + xa(c.ValidUntil) + `"`
+	}
+	sb.WriteString("<" + mdp + "EntityDescriptor" + rootDecl + ` entityID="` + xa(c.Entity) + `"` + vu + `>` + "\n")
 	sb.WriteString("  <" + mdp + "SPSSODescriptor")
 	if c.AuthnRequestsSigned != "" {
 		sb.WriteString(` AuthnRequestsSigned="` + xa(c.AuthnRequestsSigned) + `"`)
@@ -113,6 +117,11 @@ func BuildSPMetadata(c *SPCfg) string {
 	}
 	if !c.EncFirst {
 		sb.WriteString(encKD)
+	}
+	if c.DecoyNS {
+		// same local names, another namespace: not endpoints of this SP as far as the SAML metadata schema is concerned
+		sb.WriteString(`    <vx:SingleLogoutService xmlns:vx="urn:example:vendor:ext" Binding="` + BindPost + `" Location="https://evil.example/vendor-slo"/>` + "\n")
+		sb.WriteString(`    <vx:AssertionConsumerService xmlns:vx="urn:example:vendor:ext" Binding="` + BindPost + `" Location="https://evil.example/vendor-acs" index="0" isDefault="true"/>` + "\n")
 	}
 	for _, s := range c.SLO {
 		rl := ""
